@@ -10,7 +10,6 @@ import (
 	"path/filepath"
 	"runtime"
 	"strings"
-	"sync"
 	"sync/atomic"
 	"syscall"
 	"time"
@@ -461,8 +460,6 @@ func (l spinLogger) Errorf(format string, args ...interface{}) {
 		l.n.Add(1)
 	}
 }
-
-var fifoMu sync.Mutex
 
 func runStdio(sc scen, dir string) (observation, []problem) {
 	var probs []problem
